@@ -363,6 +363,138 @@ def invalid_returns(sh, recipe, names, cfg, baseline=None):
             sh.case(('ret', repr(recipe), name, repr(bad)))
 
 
+# ------------------------------------------------------------------ user printers registered for the built-in scalar types themselves
+SCALARS = {
+    'float': (float, [1.5, -0.0, 2.25, float('inf')]),
+    'int': (int, [7, -3, 10 ** 20, 0]),
+    'str': (str, ['a', '', 'two words', "q'uote"]),
+    'bytes': (bytes, [b'x', b'', b'two words']),
+    'bool': (bool, [True, False]),
+    'none': (type(None), [None]),
+    'list': (list, [[1, 2], [3], []]),
+    'tuple': (tuple, [(1, 2), (3,), ()]),
+    'dict': (dict, [{'x': 1}, {}, {'y': 2}]),
+    'frozenset': (frozenset, [frozenset([1]), frozenset()]),
+}
+
+
+def scalar_printer_child(arg):
+    """runs in a forked child: a user replaces the printer of a built-in scalar type (e.g. floats with two decimals) and that printer fails for some
+    values. Returns a list of (key, message, case)."""
+    kind, excname, cfg, invalid = arg
+    M.install_warning_recorder()
+    T, pool = SCALARS[kind]
+    state = {'mode': 'ok', 'calls': 0}
+    failing = pool[0]
+
+    def is_failing(v):
+        return type(v) is type(failing) and repr(v) == repr(failing)
+
+    def user_scalar_printer(value, ctx):
+        state['calls'] += 1
+        if is_failing(value):
+            state['fail_hits'] = state.get('fail_hits', 0) + 1
+            if state['mode'] == 'raise':
+                raise EXCS[excname]('injected')
+            if state['mode'] == 'invalid':
+                return invalid
+            return repr(value)
+        return 'U(%s)' % repr(value).replace('\n', ' ')
+    register_pretty(T)(user_scalar_printer)
+    out = []
+    others = pool[1:] or [failing]
+    hashable_values = [failing, others[0]]
+    values = {
+        'top level': failing,
+        'in a list': [others[0], failing, others[-1]],
+        'dict value': {'a': others[0], 'b': failing},
+        'dict key': ({failing: 'v', 'other': 1} if kind != 'none' else {None: 'v'}) if kind not in ('list', 'dict') else None,
+        'nested': [(others[0], [failing]), {'k': (failing,)}],
+        'set element': ({failing} if kind not in ('none',) else frozenset([None])) if kind not in ('list', 'dict') else None,
+        'twice': [failing, failing],
+    }
+    for where, value in values.items():
+        if value is None and where != 'top level':
+            continue
+        case = {'scalar printer for': kind, 'where': where, 'exception': excname, 'cfg': cfg, 'invalid': repr(invalid)}
+        state['mode'] = 'ok'
+        expected, ews = M.pp(value, **cfg)
+        if ews:
+            out.append(('baseline-warning', 'warning without any fault: %r' % (ews[0][1][:200],), case))
+            continue
+        state['mode'] = 'raise'
+        state['fail_hits'] = 0
+        try:
+            text, ws = M.pp(value, **cfg)
+        except Exception as e:
+            out.append(('exception-escaped-from-printer-of-builtin-scalar', 'pformat raised %r (%s, printer registered for %s)' % (e, where, kind), case))
+            continue
+        if not state['fail_hits']:
+            # e.g. str dict keys: pretty_dict prints them itself, the registered printer is not consulted - no fault fired, nothing to judge
+            out.append(('not-reached', where, None))
+            continue
+        if text != expected:
+            out.append(('fault-not-contained-printer-of-builtin-scalar', '%s: output %r, expected (only the failing value as repr) %r' % (where, text[:300], expected[:300]), case))
+            continue
+        fb = M.fallback_warnings(ws)
+        if not fb or len(fb) != len(ws) or any('user_scalar_printer' not in w[1] for w in fb):
+            out.append(('warning-text-printer-of-builtin-scalar', '%s: expected fallback warnings naming user_scalar_printer only, got %r' % (where, [w[1][:120] for w in ws][:3]), case))
+            continue
+        state['mode'] = 'ok'
+        after, aws = M.pp(value, **cfg)
+        if after != expected or aws:
+            out.append(('later-call-affected', '%s: fault-free print after the failure differs' % where, case))
+            continue
+        out.append(('ok', where, None))
+        # a printer returning neither str nor Doc is reported with ValueError (top level) or through a fallback warning carrying it (nested)
+        state['mode'] = 'invalid'
+        try:
+            text, ws = M.pp(value, **cfg)
+            raised = None
+        except ValueError as e:
+            raised = e
+        except Exception as e:
+            out.append(('invalid-return-wrong-exception', '%s: printer for %s returned %r: %r raised instead of ValueError' % (where, kind, invalid, e), case))
+            continue
+        if raised is not None:
+            out.append(('ok-invalid', where, None) if 'must return' in str(raised) else ('invalid-return-message', repr(raised), case))
+        elif where == 'top level':
+            out.append(('invalid-return-not-reported', 'top-level printer for %s returned %r and pformat returned %r' % (kind, invalid, text[:100]), case))
+        elif any('ValueError' in w[1] and 'must return' in w[1] for w in ws):
+            out.append(('ok-invalid', where, None))
+        else:
+            out.append(('invalid-return-not-reported', '%s: nested printer for %s returned %r: neither ValueError nor a warning carrying it' % (where, kind, invalid), case))
+    return out
+
+
+def scalar_printers(sh, quick):
+    from ..runner import fork_call
+    j = 0
+    for kind in SCALARS:
+        for excname in (list(EXCS)[:4] if quick else list(EXCS)):
+            j += 1
+            if not sh.mine(j):
+                continue
+            rng = V.rng_for('c14s', sh.seed, j)
+            cfg = rng.choice([{}, {'width': 20}, {'width': 6, 'indent': 2}, {'width': 120, 'ribbon_width': 100}])
+            invalid = rng.choice([None, 5, ['doc']])
+            status, res = fork_call(scalar_printer_child, (kind, excname, cfg, invalid), timeout=300)
+            if status != 'ok':
+                sh.inconclusive.append('scalar printer child %s: %s' % (status, str(res)[:200]))
+                continue
+            for key, msg, case in res:
+                if key == 'ok':
+                    sh.counters['faults of user printers for built-in scalar types contained'] += 1
+                    sh.see('built-in scalar types with a failing user printer', kind)
+                elif key == 'ok-invalid':
+                    sh.counters['invalid returns of user printers for built-in scalar types reported'] += 1
+                elif key == 'not-reached':
+                    sh.counters['scalar printer faults never reached (the position does not consult the registered printer)'] += 1
+                else:
+                    sh.violation(key, msg, case)
+            sh.case(('scalar', kind, excname, repr(cfg)), True)
+
+
 def run_tree(sh, i, quick):
     rng = V.rng_for('c14', sh.seed, i)
     names = []
@@ -406,11 +538,13 @@ def run_shard(sh):
         if sh.mine(i):
             run_tree(sh, i, quick)
     sh.counters['printer invocations'] += FAULTS.printer_calls
+    scalar_printers(sh, quick)
 
 
 def finalize(m):
     for name in ('faults contained and verified', 'fallback warnings verified', 'faults under a trailing comment verified', 'nodes rendered twice (fault fired twice)',
-                 'invalid returns reported with ValueError', 'pair injections'):
+                 'invalid returns reported with ValueError', 'pair injections', 'faults of user printers for built-in scalar types contained',
+                 'invalid returns of user printers for built-in scalar types reported'):
         if not m.counters.get(name):
             m.inconclusive.append('monitor never reached: ' + name)
     if len(m.sets.get('failing printer registered as', ())) < 3:
@@ -426,6 +560,16 @@ def replay(wit):
     sh = Shard('replay', 0, 0, 1)
     c = wit['case']
     names = []
+    if 'scalar printer for' in c:
+        from ..runner import fork_call
+        import ast as _ast
+        status, res = fork_call(scalar_printer_child, (c['scalar printer for'], c['exception'], c['cfg'], _ast.literal_eval(c['invalid'])), timeout=300)
+        bad = [r for r in res if r[2] is not None] if status == 'ok' else [(status, str(res), None)]
+        for r in bad:
+            print('VIOLATED', r[0], r[1][:500])
+        if not bad:
+            print('holds on this case')
+        return not bad
     if 'invalid_return' in c:
         invalid_returns(sh, c['tree'], c['failing'], c['cfg'])
     else:
